@@ -37,7 +37,16 @@ func openOthers(n int, base string, shareRoot ...string) (closers []func()) {
 			panic("harness: cannot open an unrelated database: " + err.Error())
 		}
 		_ = ow.DB.Set(ow.ctx, "o", []byte("other"))
-		closers = append(closers, func() { ow.closeDB(); os.RemoveAll(ow.Dir) })
+		closers = append(closers, func() {
+			// an explicit Close followed by a deferred one: closing a database twice is harmless, also for
+			// the other databases of the process
+			db := ow.DB
+			ow.closeDB()
+			if db != nil && i%2 == 0 {
+				_ = db.Close()
+			}
+			os.RemoveAll(ow.Dir)
+		})
 	}
 	return closers
 }
